@@ -706,7 +706,7 @@ def compile_gbnf_from_meta(meta: dict) -> str:
     from octave_mcp.core.holographic import HolographicPattern
     from octave_mcp.core.schema_extractor import FieldDefinition, SchemaDefinition
 
-    schema_type = meta.get("TYPE", "UNKNOWN")
+    schema_type = str(meta.get("TYPE", "UNKNOWN"))
 
     # Create schema from META
     schema = SchemaDefinition(
